@@ -201,6 +201,9 @@ def rand_array(rng, legs, dtype='float64', qtotal=None, labels=None, fill=None):
             block[...] = dense[sl]
     else:
         a = npc.Array.from_ndarray(dense, legs, dtype=np.dtype(dtype), qtotal=qtotal, labels=labels)
+        if fill in ('missing', 'none'):
+            # from_ndarray stores every charge-compatible block, also blocks of zeros: drop them to get blocks that are really absent
+            a.ipurge_zeros(0.)
     return a, dense, np.array(qtotal, dtype=np.int64), fill
 
 
